@@ -152,6 +152,7 @@ fn cmd_check(args: &[String]) -> i32 {
     let mut replay_n = 0usize;
     let mut known_hits: BTreeMap<usize, usize> = BTreeMap::new();
     let mut viol_totals: BTreeMap<String, u64> = BTreeMap::new();
+    let mut determinism_failures: Vec<String> = Vec::new();
     for f in &fams {
         let count = count_override.unwrap_or_else(|| f.budget(tier, &prop));
         if count == 0 {
@@ -191,11 +192,14 @@ fn cmd_check(args: &[String]) -> i32 {
                     }
                 }
             }
-            eprintln!(
-                "harness error: determinism self-check failed for family {} ({} runs: {:016x}/{} vs {:016x}/{})",
+            // Executions of this family did not repeat exactly. If the run found violations of the
+            // property anyway they are reported (state carried between calls inside the code under
+            // test is a plausible cause and a finding in itself); only a run without any violation
+            // is unusable and ends as a harness error.
+            determinism_failures.push(format!(
+                "determinism self-check failed for family {} ({} runs: {:016x}/{} vs {:016x}/{})",
                 f.name(), dn, d1.hash_sum, d1.evaluations, d2.hash_sum, d2.evaluations
-            );
-            return 2;
+            ));
         }
         evaluations += agg.evaluations;
         relevant += agg.relevant_evals;
@@ -335,6 +339,18 @@ fn cmd_check(args: &[String]) -> i32 {
     if evaluations == 0 {
         eprintln!("harness error: nothing was executed");
         return 2;
+    }
+    if !determinism_failures.is_empty() {
+        for d in &determinism_failures {
+            if n_viol > 0 {
+                println!("warning: {} - executions did not repeat exactly; the violations above were still observed", d);
+            } else {
+                eprintln!("harness error: {}", d);
+            }
+        }
+        if n_viol == 0 {
+            return 2;
+        }
     }
     if n_viol > 0 {
         1
